@@ -90,7 +90,7 @@ macro_rules! pstr_runner {
                 });
                 match r {
                     None => {
-                        out.push_str(&format!("{} r=P\n", i));
+                        out.push_str(&format!("{} r=P{}\n", i, if buf.guards_intact() { "" } else { " g=BAD" }));
                         break;
                     }
                     Some(res) => {
